@@ -1,6 +1,8 @@
-// Unit U-CLN-CM : a2lfile/src/cleanup/compu_methods.rs  (property C10: COMPU_METHOD / conversion tables / UNIT part)
-// Variant for the CURRENT /repo tree: fails on exactly the 6 obligations documented as defects D1-D4 in notes/U-CLN.md.
-// U-CLN-CM-FIXED.vrs is the same unit for the tree with the proposed patch applied (loop ordinals differ): 0 errors.
+#!/usr/bin/env python3
+"""generated /verif/contracts/U-CLN-CM.vrs and (with --fixed) U-CLN-CM-FIXED.vrs; the templates are static text, this script only
+saved typing (a 3-line header comment was added to both files by hand afterwards). Kept for reference by builder-cln."""
+import sys
+HEAD = r'''// Unit U-CLN-CM : a2lfile/src/cleanup/compu_methods.rs  (property C10: COMPU_METHOD / conversion tables / UNIT part)
 //@property C10
 #![feature(allocator_api)]
 use vstd::prelude::*;
@@ -443,7 +445,426 @@ spec fn cm_objects_wf(m: &Module) -> bool {
 pub mod compu_methods {
 use super::*;
 broadcast use group_strkeys;
-//@extract a2lfile/src/cleanup/compu_methods.rs fn cleanup
+'''
+
+# ---- step 1
+FIXED = "--fixed" in sys.argv
+LISTS1 = [  # (loop no, var, field, Type, fixed fn, has nested axis_descr loop)
+    (1, "axis_pts", "axis_pts", "AxisPts", "axis_pts_fixed"),
+    (2, "characteristic", "characteristic", "Characteristic", "characteristic_fixed"),
+    (4, "measurement", "measurement", "Measurement", "measurement_fixed"),
+    (5, "typedef_axis", "typedef_axis", "TypedefAxis", "typedef_axis_fixed"),
+    (6, "typedef_characteristic", "typedef_characteristic", "TypedefCharacteristic", "typedef_characteristic_fixed"),
+    (8 if FIXED else 7, "typedef_measurement", "typedef_measurement", "TypedefMeasurement", "typedef_measurement_fixed"),
+]
+def step1():
+    o = []
+    o.append("//@extract a2lfile/src/cleanup/compu_methods.rs fn remove_invalid_compumethod_refs")
+    for n in range(1, 9 if FIXED else 8):
+        o.append("//@ itername %d it" % n if n not in ((3, 7) if FIXED else (3,)) else "//@ itername %d it2" % n)
+    o.append("""//@ spec
+    requires
+        old(module).compu_method.wf(),
+        cm_objects_wf(old(module)),
+    ensures
+        // every `conversion` site of every object/typedef holds fixc(old value); nothing else of the element changes
+        final(module).axis_pts@.len() == old(module).axis_pts@.len(),
+        forall|i: int| 0 <= i < old(module).axis_pts@.len() ==> axis_pts_fixed(old(module), #[trigger] final(module).axis_pts@[i], old(module).axis_pts@[i]),
+        final(module).characteristic@.len() == old(module).characteristic@.len(),
+        forall|i: int| 0 <= i < old(module).characteristic@.len() ==> characteristic_fixed(old(module), #[trigger] final(module).characteristic@[i], old(module).characteristic@[i]),
+        final(module).measurement@.len() == old(module).measurement@.len(),
+        forall|i: int| 0 <= i < old(module).measurement@.len() ==> measurement_fixed(old(module), #[trigger] final(module).measurement@[i], old(module).measurement@[i]),
+        final(module).typedef_axis@.len() == old(module).typedef_axis@.len(),
+        forall|i: int| 0 <= i < old(module).typedef_axis@.len() ==> typedef_axis_fixed(old(module), #[trigger] final(module).typedef_axis@[i], old(module).typedef_axis@[i]),
+        final(module).typedef_characteristic@.len() == old(module).typedef_characteristic@.len(),
+        forall|i: int| 0 <= i < old(module).typedef_characteristic@.len() ==> typedef_characteristic_fixed(old(module), #[trigger] final(module).typedef_characteristic@[i], old(module).typedef_characteristic@[i]),
+        final(module).typedef_measurement@.len() == old(module).typedef_measurement@.len(),
+        forall|i: int| 0 <= i < old(module).typedef_measurement@.len() ==> typedef_measurement_fixed(old(module), #[trigger] final(module).typedef_measurement@[i], old(module).typedef_measurement@[i]),
+        cm_objects_wf(final(module)),
+        cm_helpers_same(final(module), old(module)),
+        cm_frame_untouched(final(module), old(module)),
+//@ body-start
+    let ghost m0 = *module;
+    let ghost mut k: int = 0;
+    let ghost mut n: int = 0;""")
+    done = []  # fields already processed
+    for (ln, var, field, ty, fx) in LISTS1:
+        o.append("//@ before-loop %d" % ln)
+        o.append("    proof { k = 0; n = module.%s@.len() as int; }" % field)
+        o.append("    let ghost m_%d = *module;" % ln)
+        o.append("//@ loop %d" % ln)
+        o.append("        invariant")
+        o.append("            m0.compu_method.wf(), module.compu_method == m0.compu_method,")
+        o.append("            iter_mut_inv(it.snapshot@.remaining(), it.history@, it.iter.remaining(), it.index@ as int, k, n, m0.%s@)," % field)
+        o.append("            forall|j: int| 0 <= j < it.index@ ==> %s(&m0, mut_ref_future(#[trigger] it.snapshot@.remaining()[j]), m0.%s@[j])," % (fx, field))
+        o.append("//@ loop-end %d" % ln)
+        o.append("        proof { k = k + 1; }")
+        if ln == 2:
+            o.append("""//@ before-loop 3
+        let ghost c0 = *characteristic;
+        let ghost mut k2: int = 0;
+        let ghost n2: int = characteristic.axis_descr@.len() as int;
+        proof { assert(c0 == m0.characteristic@[k]); }
+//@ loop 3
+            invariant
+                m0.compu_method.wf(), module.compu_method == m0.compu_method,
+                characteristic.name == c0.name, characteristic.deposit == c0.deposit, characteristic.function_list == c0.function_list,
+                characteristic.conversion == c0.conversion,
+                iter_mut_inv(it2.snapshot@.remaining(), it2.history@, it2.iter.remaining(), it2.index@ as int, k2, n2, c0.axis_descr@),
+                forall|j: int| 0 <= j < it2.index@ ==> mut_ref_future(#[trigger] it2.snapshot@.remaining()[j]).conversion@ == fixc(&m0, c0.axis_descr@[j].conversion@),
+//@ loop-end 3
+            proof { k2 = k2 + 1; }
+//@ after-loop 3
+        proof { assert(axis_descrs_fixed(&m0, characteristic.axis_descr@, c0.axis_descr@)); }""")
+        if ln == 6 and FIXED:
+            o.append("""//@ before-loop 7
+        let ghost c0 = *typedef_characteristic;
+        let ghost mut k2: int = 0;
+        let ghost n2: int = typedef_characteristic.axis_descr@.len() as int;
+        proof { assert(c0 == m0.typedef_characteristic@[k]); }
+//@ loop 7
+            invariant
+                m0.compu_method.wf(), module.compu_method == m0.compu_method,
+                typedef_characteristic.name == c0.name, typedef_characteristic.record_layout == c0.record_layout,
+                typedef_characteristic.conversion == c0.conversion,
+                iter_mut_inv(it2.snapshot@.remaining(), it2.history@, it2.iter.remaining(), it2.index@ as int, k2, n2, c0.axis_descr@),
+                forall|j: int| 0 <= j < it2.index@ ==> mut_ref_future(#[trigger] it2.snapshot@.remaining()[j]).conversion@ == fixc(&m0, c0.axis_descr@[j].conversion@),
+//@ loop-end 7
+            proof { k2 = k2 + 1; }
+//@ after-loop 7
+        proof { assert(axis_descrs_fixed(&m0, typedef_characteristic.axis_descr@, c0.axis_descr@)); }""")
+    o.append("//@end\n")
+    return "\n".join(o)
+
+# ---- step 2
+def step2():
+    o = []
+    o.append("//@extract a2lfile/src/cleanup/compu_methods.rs fn remove_unused_compumethods")
+    # loops (unpatched): 1 ap, 2 ch, 3 ch.axis_descr, 4 me, 5 ta, 6 tc, 7 tm, 8 compu_method(ssr)
+    # loops (patched):   1 ap, 2 ch, 3 ch.axis_descr, 4 me, 5 ta, 6 tc, 7 tc.axis_descr, 8 tm, 9 instance, 10 overwrite
+    if FIXED:
+        names = {1:"it",2:"it",3:"it2",4:"it",5:"it",6:"it",7:"it2",8:"it",9:"it",10:"it2"}
+    else:
+        names = {1:"it",2:"it",3:"it2",4:"it",5:"it",6:"it",7:"it",8:"it"}
+    for n_, g in names.items():
+        o.append("//@ itername %d %s" % (n_, g))
+    o.append('//@ rewrite R14 1 "|item| used_compumethods.contains(&item.name)" => "|item: &mut CompuMethod| -> (b: bool) ensures *final(item) == *old(item), b == used_compumethods@.contains(old(item).name) { used_compumethods.contains(&item.name) }"')
+    o.append("""//@ spec
+    requires
+        old(module).compu_method.wf(),
+        cm_objects_wf(old(module)),
+    ensures
+        // a COMPU_METHOD is kept iff its name occurs at a COMPU_METHOD reference site; order preserved
+        final(module).compu_method@ == old(module).compu_method@.filter(|c: CompuMethod| cm_used(old(module), c.name@)),
+        final(module).compu_method.wf(),
+        cm_objects_same_view(final(module), old(module)),
+        final(module).compu_tab == old(module).compu_tab, final(module).compu_vtab == old(module).compu_vtab,
+        final(module).compu_vtab_range == old(module).compu_vtab_range, final(module).unit == old(module).unit,
+        cm_frame_untouched(final(module), old(module)),
+//@ body-start
+    let ghost m0 = *module;
+    let ghost mut k: int = 0;
+    let ghost mut n: int = 0;""")
+    def mutloop(ln, field, stage, site, extra_inv="", end_extra=""):
+        o.append("//@ before-loop %d" % ln)
+        o.append("    proof { k = 0; n = module.%s@.len() as int; }" % field)
+        o.append("//@ loop %d" % ln)
+        o.append("        invariant")
+        o.append("            iter_mut_inv(it.snapshot@.remaining(), it.history@, it.iter.remaining(), it.index@ as int, k, n, m0.%s@)," % field)
+        o.append("            forall|j: int| 0 <= j < it.index@ ==> mut_ref_future(#[trigger] it.snapshot@.remaining()[j]) == m0.%s@[j]," % field)
+        o.append("            forall|s: String| #[trigger] %s@.contains(s) <==> cm_used_upto(&m0, %d, s@) || %s(&m0, it.index@ as int, s@)," % ("used_compumethods", stage, site))
+        if extra_inv: o.append(extra_inv)
+        o.append("//@ loop-end %d" % ln)
+        o.append("        proof {")
+        o.append("            assert forall|s: String| #[trigger] used_compumethods@.contains(s) <==> cm_used_upto(&m0, %d, s@) || %s(&m0, k + 1, s@) by {" % (stage, site))
+        o.append(end_extra or "                if s@ == m0.%s@[k].conversion@ { assert(m0.%s@[k].conversion@ == s@); }" % (field, field))
+        o.append("            }")
+        o.append("            k = k + 1;")
+        o.append("        }")
+        o.append("//@ after-loop %d" % ln)
+        o.append("    proof { assert(module.%s@ =~= m0.%s@); assert(same_list(module.%s, m0.%s)); }" % (field, field, field, field))
+    mutloop(1, "axis_pts", 0, "site_ap")
+    # characteristic with nested shared loop over axis_descr
+    mutloop(2, "characteristic", 1, "site_ch", end_extra="""                let c = m0.characteristic@[k];
+                if ch_use(c, s@) { assert(ch_use(m0.characteristic@[k], s@)); }""")
+    o.append("""//@ before-loop 3
+        let ghost c0 = *characteristic;
+        proof { assert(c0 == m0.characteristic@[k]); }
+//@ loop 3
+            invariant
+                *characteristic == c0,
+                it2.snapshot@.remaining() == c0.axis_descr@.map_values(|x: AxisDescr| &x),
+                forall|s: String| #[trigger] used_compumethods@.contains(s) <==> cm_used_upto(&m0, 1, s@) || site_ch(&m0, k, s@) || ads_use(c0.axis_descr@, it2.index@ as int, s@),
+//@ loop-end 3
+            proof {
+                let k2 = it2.index@ as int;
+                assert(*axis_descr == c0.axis_descr@[k2]);
+                assert forall|s: String| #[trigger] used_compumethods@.contains(s) <==> cm_used_upto(&m0, 1, s@) || site_ch(&m0, k, s@) || ads_use(c0.axis_descr@, k2 + 1, s@) by {
+                    if s@ == c0.axis_descr@[k2].conversion@ { assert(c0.axis_descr@[k2].conversion@ == s@); }
+                }
+            }""")
+    mutloop(4, "measurement", 2, "site_me")
+    mutloop(5, "typedef_axis", 3, "site_ta")
+    if FIXED:
+        mutloop(6, "typedef_characteristic", 4, "site_tc", end_extra="""                let c = m0.typedef_characteristic@[k];
+                if tc_use(c, s@) { assert(tc_use(m0.typedef_characteristic@[k], s@)); }""")
+        o.append("""//@ before-loop 7
+        let ghost c0 = *typedef_characteristic;
+        proof { assert(c0 == m0.typedef_characteristic@[k]); }
+//@ loop 7
+            invariant
+                *typedef_characteristic == c0,
+                it2.snapshot@.remaining() == c0.axis_descr@.map_values(|x: AxisDescr| &x),
+                forall|s: String| #[trigger] used_compumethods@.contains(s) <==> cm_used_upto(&m0, 4, s@) || site_tc(&m0, k, s@) || ads_use(c0.axis_descr@, it2.index@ as int, s@),
+//@ loop-end 7
+            proof {
+                let k2 = it2.index@ as int;
+                assert(*axis_descr == c0.axis_descr@[k2]);
+                assert forall|s: String| #[trigger] used_compumethods@.contains(s) <==> cm_used_upto(&m0, 4, s@) || site_tc(&m0, k, s@) || ads_use(c0.axis_descr@, k2 + 1, s@) by {
+                    if s@ == c0.axis_descr@[k2].conversion@ { assert(c0.axis_descr@[k2].conversion@ == s@); }
+                }
+            }""")
+        mutloop(8, "typedef_measurement", 5, "site_tm")
+        o.append("""//@ loop 9
+        invariant
+            *module == m_9,
+            it.snapshot@.remaining() == m0.instance@.map_values(|x: Instance| &x),
+            forall|s: String| #[trigger] used_compumethods@.contains(s) <==> cm_used_upto(&m0, 6, s@) || site_in(&m0, it.index@ as int, s@),
+//@ before-loop 9
+    let ghost m_9 = *module;
+    proof { assert(m_9.instance == m0.instance); }
+//@ before-loop 10
+        let ghost ki = it.index@ as int;
+        let ghost i0 = *instance;
+        proof { assert(i0 == m0.instance@[ki]); }
+//@ loop 10
+            invariant
+                *module == m_9,
+                it2.snapshot@.remaining() == i0.overwrite@.map_values(|x: Overwrite| &x),
+                forall|s: String| #[trigger] used_compumethods@.contains(s) <==> cm_used_upto(&m0, 6, s@) || site_in(&m0, ki, s@) || ow_use(i0.overwrite@, it2.index@ as int, s@),
+//@ loop-end 10
+            proof {
+                let k2 = it2.index@ as int;
+                assert(*overwrite == i0.overwrite@[k2]);
+                assert forall|s: String| #[trigger] used_compumethods@.contains(s) <==> cm_used_upto(&m0, 6, s@) || site_in(&m0, ki, s@) || ow_use(i0.overwrite@, k2 + 1, s@) by {
+                    if i0.overwrite@[k2].conversion is Some && s@ == i0.overwrite@[k2].conversion->0.name@ { assert(i0.overwrite@[k2].conversion->0.name@ == s@); }
+                }
+            }
+//@ loop-end 9
+        proof {
+            assert forall|s: String| #[trigger] used_compumethods@.contains(s) <==> cm_used_upto(&m0, 6, s@) || site_in(&m0, ki + 1, s@) by {
+                if ow_use(i0.overwrite@, i0.overwrite@.len() as int, s@) { assert(ow_use(m0.instance@[ki].overwrite@, m0.instance@[ki].overwrite@.len() as int, s@)); }
+            }
+        }""")
+    else:
+        # unpatched tree: the TYPEDEF_CHARACTERISTIC loop does not look at axis_descr (DEFECT D2: fails at loop end),
+        # the COMPU_METHOD loop inserts STATUS_STRING_REF targets (DEFECT D1: fails at loop end), no INSTANCE loop (DEFECT D3)
+        mutloop(6, "typedef_characteristic", 4, "site_tc", end_extra="""                let c = m0.typedef_characteristic@[k];
+                if tc_use(c, s@) { assert(tc_use(m0.typedef_characteristic@[k], s@)); }""")
+        mutloop(7, "typedef_measurement", 5, "site_tm")
+        o.append("""//@ before-loop 8
+    proof { k = 0; n = module.compu_method@.len() as int; }
+//@ loop 8
+        invariant
+            iter_mut_inv(it.snapshot@.remaining(), it.history@, it.iter.remaining(), it.index@ as int, k, n, m0.compu_method@),
+            forall|j: int| 0 <= j < it.index@ ==> mut_ref_future(#[trigger] it.snapshot@.remaining()[j]) == m0.compu_method@[j],
+            // C10: STATUS_STRING_REF names a conversion table, not a COMPU_METHOD: this loop must not add anything
+            forall|s: String| #[trigger] used_compumethods@.contains(s) <==> cm_used_upto(&m0, 6, s@),
+//@ loop-end 8
+        proof { k = k + 1; }""")
+    o.append("""//@ before 1 module
+    proof {
+        assert forall|s: String| #[trigger] used_compumethods@.contains(s) <==> cm_used(&m0, s@) by {}
+        assert(module.compu_method@ == m0.compu_method@);
+    }
+    let ghost p = |c: CompuMethod| cm_used(&m0, c.name@);
+//@ after 1 .retain(
+    proof {
+        assert(module.compu_method@ == m0.compu_method@.filter(p));
+    }
+//@end
+""")
+    return "\n".join(o)
+
+# ---- step 3
+def step3():
+    o = []
+    o.append("//@extract a2lfile/src/cleanup/compu_methods.rs fn remove_unused_sub_elements")
+    o.append("//@ itername 1 it")
+    if FIXED:
+        o.append("//@ itername 3 it")
+    else:
+        o.append("//@ itername 2 it")
+    for fld, ty in (("compu_tab", "CompuTab"), ("compu_vtab", "CompuVtab"), ("compu_vtab_range", "CompuVtabRange")):
+        o.append('//@ rewrite R14 1 ".%s\\n        .retain(|item| used_compu_tabs.contains(&item.name))" => ".%s\\n        .retain(|item: &mut %s| -> (b: bool) ensures *final(item) == *old(item), b == used_compu_tabs@.contains(old(item).name) { used_compu_tabs.contains(&item.name) })"' % (fld, fld, ty))
+    if FIXED:
+        o.append('//@ rewrite R14 1 "|item| used_units.contains(&item.name) || used_by_units.contains(&item.name)" => "|item: &mut Unit| -> (b: bool) ensures *final(item) == *old(item), b == (used_units@.contains(old(item).name) || used_by_units@.contains(old(item).name)) { used_units.contains(&item.name) || used_by_units.contains(&item.name) }"')
+    else:
+        o.append('//@ rewrite R14 1 "|item| used_units.contains(&item.name)" => "|item: &mut Unit| -> (b: bool) ensures *final(item) == *old(item), b == used_units@.contains(old(item).name) { used_units.contains(&item.name) }"')
+    o.append("""//@ spec
+    requires
+        old(module).compu_tab.wf(), old(module).compu_vtab.wf(), old(module).compu_vtab_range.wf(), old(module).unit.wf(),
+    ensures
+        // conversion tables: kept iff target of a COMPU_TAB_REF / STATUS_STRING_REF of a (remaining) COMPU_METHOD
+        final(module).compu_tab@ == old(module).compu_tab@.filter(|t: CompuTab| tab_used(old(module), t.name@)),
+        final(module).compu_vtab@ == old(module).compu_vtab@.filter(|t: CompuVtab| tab_used(old(module), t.name@)),
+        final(module).compu_vtab_range@ == old(module).compu_vtab_range@.filter(|t: CompuVtabRange| tab_used(old(module), t.name@)),
+        final(module).compu_tab.wf(), final(module).compu_vtab.wf(), final(module).compu_vtab_range.wf(),
+        // UNITs: the result is a sub-list (order and elements preserved) and a UNIT is kept iff it is the target of
+        // a REF_UNIT of a COMPU_METHOD or of a REMAINING UNIT
+        exists|p: spec_fn(Unit) -> bool| final(module).unit@ == old(module).unit@.filter(p),
+        final(module).unit.wf(),
+        forall|n: Seq<char>| #[trigger] final(module).unit.has(n) <==> old(module).unit.has(n) && unit_used(final(module), n),
+        final(module).compu_method == old(module).compu_method,
+        cm_objects_same(final(module), old(module)),
+        cm_frame_untouched(final(module), old(module)),
+//@ body-start
+    let ghost m0 = *module;
+//@ loop 1
+        invariant
+            *module == m0,
+            it.snapshot@.remaining() == m0.compu_method@.map_values(|x: CompuMethod| &x),
+            forall|s: String| #[trigger] used_compu_tabs@.contains(s) <==> tab_used_pre(&m0, it.index@ as int, s@),
+            forall|s: String| #[trigger] used_units@.contains(s) <==> unit_used_cm_pre(&m0, it.index@ as int, s@),
+//@ loop-end 1
+        proof {
+            let k = it.index@ as int;
+            assert(*compu_method == m0.compu_method@[k]);
+            assert forall|s: String| #[trigger] used_compu_tabs@.contains(s) <==> tab_used_pre(&m0, k + 1, s@) by {
+                if cm_tab_use(m0.compu_method@[k], s@) { assert(cm_tab_use(m0.compu_method@[k], s@)); }
+            }
+            assert forall|s: String| #[trigger] used_units@.contains(s) <==> unit_used_cm_pre(&m0, k + 1, s@) by {
+                if m0.compu_method@[k].ref_unit is Some && m0.compu_method@[k].ref_unit->0.unit@ == s@ { assert(m0.compu_method@[k].ref_unit->0.unit@ == s@); }
+            }
+        }
+//@ after-loop 1
+    let ghost pt = |t: CompuTab| tab_used(&m0, t.name@);
+    let ghost pv = |t: CompuVtab| tab_used(&m0, t.name@);
+    let ghost pr = |t: CompuVtabRange| tab_used(&m0, t.name@);
+    proof {
+        assert forall|s: String| #[trigger] used_compu_tabs@.contains(s) <==> tab_used(&m0, s@) by {}
+    }
+//@ after 1 .retain(
+    proof { assert(module.compu_tab@ == m0.compu_tab@.filter(pt)); }
+//@ after 2 .retain(
+    proof { assert(module.compu_vtab@ == m0.compu_vtab@.filter(pv)); }
+//@ after 3 .retain(
+    proof { assert(module.compu_vtab_range@ == m0.compu_vtab_range@.filter(pr)); }""")
+    if FIXED:
+        o.append(UNITS_FIXED)
+    else:
+        o.append(UNITS_ORIG)
+    o.append("//@end\n")
+    return "\n".join(o)
+
+UNITS_FIXED = """//@ before-loop 2
+    let ghost m2 = *module;
+    let ghost mut pacc: spec_fn(Unit) -> bool = |u: Unit| true;
+    proof {
+        assert forall|s: String| #[trigger] used_units@.contains(s) <==> unit_used_cm(&m0, s@) by {}
+        lemma_filter_all_true(m0.unit@, pacc);
+    }
+//@ loop 2
+        invariant
+            eq_except_unit(module, &m2), m2.compu_method == m0.compu_method,
+            m0.unit.wf(), module.unit.wf(),
+            module.unit@ == m0.unit@.filter(pacc),
+            forall|s: String| #[trigger] used_units@.contains(s) <==> unit_used_cm(&m0, s@),
+            units_removed_unreferenced(&m0, m0.unit, module.unit),
+        ensures
+            forall|i: int| 0 <= i < module.unit@.len() ==> unit_used_cm(&m0, (#[trigger] module.unit@[i]).name@) || unit_used_units(module.unit@, module.unit@.len() as int, module.unit@[i].name@),
+        decreases module.unit@.len(),
+//@ before-loop 3
+        let ghost cur = module.unit;
+//@ loop 3
+            invariant
+                module.unit == cur, eq_except_unit(module, &m2),
+                it.snapshot@.remaining() == cur@.map_values(|x: Unit| &x),
+                forall|s: String| #[trigger] used_by_units@.contains(s) <==> unit_used_units(cur@, it.index@ as int, s@),
+//@ loop-end 3
+            proof {
+                let k = it.index@ as int;
+                assert(*unit == cur@[k]);
+                assert forall|s: String| #[trigger] used_by_units@.contains(s) <==> unit_used_units(cur@, k + 1, s@) by {
+                    if cur@[k].ref_unit is Some && cur@[k].ref_unit->0.unit@ == s@ { assert(cur@[k].ref_unit->0.unit@ == s@); }
+                }
+            }
+//@ after-loop 3
+        let ghost q = |u: Unit| unit_used_cm(&m0, u.name@) || unit_used_units(cur@, cur@.len() as int, u.name@);
+//@ after 4 .retain(
+        proof {
+            assert(module.unit@ == cur@.filter(q));
+            pacc = lemma_units_step(&m0, m0.unit, cur, module.unit, pacc, q);
+        }
+//@ before 1 break;
+            proof { lemma_filter_all(cur@, q); }
+//@ after-loop 2
+    proof { lemma_units_final(&m0, m0.unit, module.unit, pacc); }
+"""
+
+UNITS_ORIG = """//@ before-loop 2
+    let ghost m2 = *module;
+    proof {
+        assert forall|s: String| #[trigger] used_units@.contains(s) <==> unit_used_cm(&m0, s@) by {}
+    }
+//@ loop 2
+        invariant
+            *module == m2,
+            it.snapshot@.remaining() == m2.unit@.map_values(|x: Unit| &x),
+            forall|s: String| #[trigger] used_units@.contains(s) <==> unit_used_cm(&m0, s@) || unit_used_units(m2.unit@, it.index@ as int, s@),
+//@ loop-end 2
+        proof {
+            let k = it.index@ as int;
+            assert(*unit == m2.unit@[k]);
+            assert forall|s: String| #[trigger] used_units@.contains(s) <==> unit_used_cm(&m0, s@) || unit_used_units(m2.unit@, k + 1, s@) by {
+                if m2.unit@[k].ref_unit is Some && m2.unit@[k].ref_unit->0.unit@ == s@ { assert(m2.unit@[k].ref_unit->0.unit@ == s@); }
+            }
+        }
+//@ after-loop 2
+    let ghost q = |u: Unit| unit_used_cm(&m0, u.name@) || unit_used_units(m0.unit@, m0.unit@.len() as int, u.name@);
+//@ after 1 module.unit.retain(
+    proof {
+        assert(module.unit@ == m0.unit@.filter(q));
+    }
+"""
+
+# ---- step 4
+def step4():
+    o = []
+    o.append("//@extract a2lfile/src/cleanup/compu_methods.rs fn remove_invalid_sub_element_refs")
+    o.append("//@ itername 1 it")
+    o.append('//@ rewrite R11 1 "module\\n        .compu_tab\\n        .keys()\\n        .chain(module.compu_vtab.keys())\\n        .chain(module.compu_vtab_range.keys())\\n        .cloned()\\n        .collect::<HashSet<String>>()" => "existing_compu_tab_names(module)"')
+    o.append("""//@ spec
+    requires
+        old(module).compu_method.wf(), old(module).unit.wf(),
+        old(module).compu_tab.wf(), old(module).compu_vtab.wf(), old(module).compu_vtab_range.wf(),
+    ensures
+        final(module).compu_method@.len() == old(module).compu_method@.len(),
+        forall|i: int| 0 <= i < old(module).compu_method@.len() ==> cm_refs_fixed(old(module), #[trigger] final(module).compu_method@[i], old(module).compu_method@[i]),
+        final(module).compu_method.wf(),
+        final(module).compu_tab == old(module).compu_tab, final(module).compu_vtab == old(module).compu_vtab,
+        final(module).compu_vtab_range == old(module).compu_vtab_range, final(module).unit == old(module).unit,
+        cm_objects_same(final(module), old(module)),
+        cm_frame_untouched(final(module), old(module)),
+//@ body-start
+    let ghost m0 = *module;
+    let ghost mut k: int = 0;
+    let ghost n: int = module.compu_method@.len() as int;
+//@ loop 1
+        invariant
+            m0.unit.wf(), module.unit == m0.unit,
+            forall|s: String| #[trigger] existing_compu_tabs@.contains(s) <==> tab_exists(&m0, s@),
+            iter_mut_inv(it.snapshot@.remaining(), it.history@, it.iter.remaining(), it.index@ as int, k, n, m0.compu_method@),
+            forall|j: int| 0 <= j < it.index@ ==> cm_refs_fixed(&m0, mut_ref_future(#[trigger] it.snapshot@.remaining()[j]), m0.compu_method@[j]),
+//@ loop-end 1
+        proof { k = k + 1; }
+//@end
+""")
+    return "\n".join(o)
+
+# ---- composition
+def step5():
+    return """//@extract a2lfile/src/cleanup/compu_methods.rs fn cleanup
 //@ spec
     requires
         cm_lists_wf(old(module)),
@@ -540,390 +961,13 @@ broadcast use group_strkeys;
         }
     }
 //@end
-//@extract a2lfile/src/cleanup/compu_methods.rs fn remove_invalid_compumethod_refs
-//@ itername 1 it
-//@ itername 2 it
-//@ itername 3 it2
-//@ itername 4 it
-//@ itername 5 it
-//@ itername 6 it
-//@ itername 7 it
-//@ spec
-    requires
-        old(module).compu_method.wf(),
-        cm_objects_wf(old(module)),
-    ensures
-        // every `conversion` site of every object/typedef holds fixc(old value); nothing else of the element changes
-        final(module).axis_pts@.len() == old(module).axis_pts@.len(),
-        forall|i: int| 0 <= i < old(module).axis_pts@.len() ==> axis_pts_fixed(old(module), #[trigger] final(module).axis_pts@[i], old(module).axis_pts@[i]),
-        final(module).characteristic@.len() == old(module).characteristic@.len(),
-        forall|i: int| 0 <= i < old(module).characteristic@.len() ==> characteristic_fixed(old(module), #[trigger] final(module).characteristic@[i], old(module).characteristic@[i]),
-        final(module).measurement@.len() == old(module).measurement@.len(),
-        forall|i: int| 0 <= i < old(module).measurement@.len() ==> measurement_fixed(old(module), #[trigger] final(module).measurement@[i], old(module).measurement@[i]),
-        final(module).typedef_axis@.len() == old(module).typedef_axis@.len(),
-        forall|i: int| 0 <= i < old(module).typedef_axis@.len() ==> typedef_axis_fixed(old(module), #[trigger] final(module).typedef_axis@[i], old(module).typedef_axis@[i]),
-        final(module).typedef_characteristic@.len() == old(module).typedef_characteristic@.len(),
-        forall|i: int| 0 <= i < old(module).typedef_characteristic@.len() ==> typedef_characteristic_fixed(old(module), #[trigger] final(module).typedef_characteristic@[i], old(module).typedef_characteristic@[i]),
-        final(module).typedef_measurement@.len() == old(module).typedef_measurement@.len(),
-        forall|i: int| 0 <= i < old(module).typedef_measurement@.len() ==> typedef_measurement_fixed(old(module), #[trigger] final(module).typedef_measurement@[i], old(module).typedef_measurement@[i]),
-        cm_objects_wf(final(module)),
-        cm_helpers_same(final(module), old(module)),
-        cm_frame_untouched(final(module), old(module)),
-//@ body-start
-    let ghost m0 = *module;
-    let ghost mut k: int = 0;
-    let ghost mut n: int = 0;
-//@ before-loop 1
-    proof { k = 0; n = module.axis_pts@.len() as int; }
-    let ghost m_1 = *module;
-//@ loop 1
-        invariant
-            m0.compu_method.wf(), module.compu_method == m0.compu_method,
-            iter_mut_inv(it.snapshot@.remaining(), it.history@, it.iter.remaining(), it.index@ as int, k, n, m0.axis_pts@),
-            forall|j: int| 0 <= j < it.index@ ==> axis_pts_fixed(&m0, mut_ref_future(#[trigger] it.snapshot@.remaining()[j]), m0.axis_pts@[j]),
-//@ loop-end 1
-        proof { k = k + 1; }
-//@ before-loop 2
-    proof { k = 0; n = module.characteristic@.len() as int; }
-    let ghost m_2 = *module;
-//@ loop 2
-        invariant
-            m0.compu_method.wf(), module.compu_method == m0.compu_method,
-            iter_mut_inv(it.snapshot@.remaining(), it.history@, it.iter.remaining(), it.index@ as int, k, n, m0.characteristic@),
-            forall|j: int| 0 <= j < it.index@ ==> characteristic_fixed(&m0, mut_ref_future(#[trigger] it.snapshot@.remaining()[j]), m0.characteristic@[j]),
-//@ loop-end 2
-        proof { k = k + 1; }
-//@ before-loop 3
-        let ghost c0 = *characteristic;
-        let ghost mut k2: int = 0;
-        let ghost n2: int = characteristic.axis_descr@.len() as int;
-        proof { assert(c0 == m0.characteristic@[k]); }
-//@ loop 3
-            invariant
-                m0.compu_method.wf(), module.compu_method == m0.compu_method,
-                characteristic.name == c0.name, characteristic.deposit == c0.deposit, characteristic.function_list == c0.function_list,
-                characteristic.conversion == c0.conversion,
-                iter_mut_inv(it2.snapshot@.remaining(), it2.history@, it2.iter.remaining(), it2.index@ as int, k2, n2, c0.axis_descr@),
-                forall|j: int| 0 <= j < it2.index@ ==> mut_ref_future(#[trigger] it2.snapshot@.remaining()[j]).conversion@ == fixc(&m0, c0.axis_descr@[j].conversion@),
-//@ loop-end 3
-            proof { k2 = k2 + 1; }
-//@ after-loop 3
-        proof { assert(axis_descrs_fixed(&m0, characteristic.axis_descr@, c0.axis_descr@)); }
-//@ before-loop 4
-    proof { k = 0; n = module.measurement@.len() as int; }
-    let ghost m_4 = *module;
-//@ loop 4
-        invariant
-            m0.compu_method.wf(), module.compu_method == m0.compu_method,
-            iter_mut_inv(it.snapshot@.remaining(), it.history@, it.iter.remaining(), it.index@ as int, k, n, m0.measurement@),
-            forall|j: int| 0 <= j < it.index@ ==> measurement_fixed(&m0, mut_ref_future(#[trigger] it.snapshot@.remaining()[j]), m0.measurement@[j]),
-//@ loop-end 4
-        proof { k = k + 1; }
-//@ before-loop 5
-    proof { k = 0; n = module.typedef_axis@.len() as int; }
-    let ghost m_5 = *module;
-//@ loop 5
-        invariant
-            m0.compu_method.wf(), module.compu_method == m0.compu_method,
-            iter_mut_inv(it.snapshot@.remaining(), it.history@, it.iter.remaining(), it.index@ as int, k, n, m0.typedef_axis@),
-            forall|j: int| 0 <= j < it.index@ ==> typedef_axis_fixed(&m0, mut_ref_future(#[trigger] it.snapshot@.remaining()[j]), m0.typedef_axis@[j]),
-//@ loop-end 5
-        proof { k = k + 1; }
-//@ before-loop 6
-    proof { k = 0; n = module.typedef_characteristic@.len() as int; }
-    let ghost m_6 = *module;
-//@ loop 6
-        invariant
-            m0.compu_method.wf(), module.compu_method == m0.compu_method,
-            iter_mut_inv(it.snapshot@.remaining(), it.history@, it.iter.remaining(), it.index@ as int, k, n, m0.typedef_characteristic@),
-            forall|j: int| 0 <= j < it.index@ ==> typedef_characteristic_fixed(&m0, mut_ref_future(#[trigger] it.snapshot@.remaining()[j]), m0.typedef_characteristic@[j]),
-//@ loop-end 6
-        proof { k = k + 1; }
-//@ before-loop 7
-    proof { k = 0; n = module.typedef_measurement@.len() as int; }
-    let ghost m_7 = *module;
-//@ loop 7
-        invariant
-            m0.compu_method.wf(), module.compu_method == m0.compu_method,
-            iter_mut_inv(it.snapshot@.remaining(), it.history@, it.iter.remaining(), it.index@ as int, k, n, m0.typedef_measurement@),
-            forall|j: int| 0 <= j < it.index@ ==> typedef_measurement_fixed(&m0, mut_ref_future(#[trigger] it.snapshot@.remaining()[j]), m0.typedef_measurement@[j]),
-//@ loop-end 7
-        proof { k = k + 1; }
-//@end
-//@extract a2lfile/src/cleanup/compu_methods.rs fn remove_unused_compumethods
-//@ itername 1 it
-//@ itername 2 it
-//@ itername 3 it2
-//@ itername 4 it
-//@ itername 5 it
-//@ itername 6 it
-//@ itername 7 it
-//@ itername 8 it
-//@ rewrite R14 1 "|item| used_compumethods.contains(&item.name)" => "|item: &mut CompuMethod| -> (b: bool) ensures *final(item) == *old(item), b == used_compumethods@.contains(old(item).name) { used_compumethods.contains(&item.name) }"
-//@ spec
-    requires
-        old(module).compu_method.wf(),
-        cm_objects_wf(old(module)),
-    ensures
-        // a COMPU_METHOD is kept iff its name occurs at a COMPU_METHOD reference site; order preserved
-        final(module).compu_method@ == old(module).compu_method@.filter(|c: CompuMethod| cm_used(old(module), c.name@)),
-        final(module).compu_method.wf(),
-        cm_objects_same_view(final(module), old(module)),
-        final(module).compu_tab == old(module).compu_tab, final(module).compu_vtab == old(module).compu_vtab,
-        final(module).compu_vtab_range == old(module).compu_vtab_range, final(module).unit == old(module).unit,
-        cm_frame_untouched(final(module), old(module)),
-//@ body-start
-    let ghost m0 = *module;
-    let ghost mut k: int = 0;
-    let ghost mut n: int = 0;
-//@ before-loop 1
-    proof { k = 0; n = module.axis_pts@.len() as int; }
-//@ loop 1
-        invariant
-            iter_mut_inv(it.snapshot@.remaining(), it.history@, it.iter.remaining(), it.index@ as int, k, n, m0.axis_pts@),
-            forall|j: int| 0 <= j < it.index@ ==> mut_ref_future(#[trigger] it.snapshot@.remaining()[j]) == m0.axis_pts@[j],
-            forall|s: String| #[trigger] used_compumethods@.contains(s) <==> cm_used_upto(&m0, 0, s@) || site_ap(&m0, it.index@ as int, s@),
-//@ loop-end 1
-        proof {
-            assert forall|s: String| #[trigger] used_compumethods@.contains(s) <==> cm_used_upto(&m0, 0, s@) || site_ap(&m0, k + 1, s@) by {
-                if s@ == m0.axis_pts@[k].conversion@ { assert(m0.axis_pts@[k].conversion@ == s@); }
-            }
-            k = k + 1;
-        }
-//@ after-loop 1
-    proof { assert(module.axis_pts@ =~= m0.axis_pts@); assert(same_list(module.axis_pts, m0.axis_pts)); }
-//@ before-loop 2
-    proof { k = 0; n = module.characteristic@.len() as int; }
-//@ loop 2
-        invariant
-            iter_mut_inv(it.snapshot@.remaining(), it.history@, it.iter.remaining(), it.index@ as int, k, n, m0.characteristic@),
-            forall|j: int| 0 <= j < it.index@ ==> mut_ref_future(#[trigger] it.snapshot@.remaining()[j]) == m0.characteristic@[j],
-            forall|s: String| #[trigger] used_compumethods@.contains(s) <==> cm_used_upto(&m0, 1, s@) || site_ch(&m0, it.index@ as int, s@),
-//@ loop-end 2
-        proof {
-            assert forall|s: String| #[trigger] used_compumethods@.contains(s) <==> cm_used_upto(&m0, 1, s@) || site_ch(&m0, k + 1, s@) by {
-                let c = m0.characteristic@[k];
-                if ch_use(c, s@) { assert(ch_use(m0.characteristic@[k], s@)); }
-            }
-            k = k + 1;
-        }
-//@ after-loop 2
-    proof { assert(module.characteristic@ =~= m0.characteristic@); assert(same_list(module.characteristic, m0.characteristic)); }
-//@ before-loop 3
-        let ghost c0 = *characteristic;
-        proof { assert(c0 == m0.characteristic@[k]); }
-//@ loop 3
-            invariant
-                *characteristic == c0,
-                it2.snapshot@.remaining() == c0.axis_descr@.map_values(|x: AxisDescr| &x),
-                forall|s: String| #[trigger] used_compumethods@.contains(s) <==> cm_used_upto(&m0, 1, s@) || site_ch(&m0, k, s@) || ads_use(c0.axis_descr@, it2.index@ as int, s@),
-//@ loop-end 3
-            proof {
-                let k2 = it2.index@ as int;
-                assert(*axis_descr == c0.axis_descr@[k2]);
-                assert forall|s: String| #[trigger] used_compumethods@.contains(s) <==> cm_used_upto(&m0, 1, s@) || site_ch(&m0, k, s@) || ads_use(c0.axis_descr@, k2 + 1, s@) by {
-                    if s@ == c0.axis_descr@[k2].conversion@ { assert(c0.axis_descr@[k2].conversion@ == s@); }
-                }
-            }
-//@ before-loop 4
-    proof { k = 0; n = module.measurement@.len() as int; }
-//@ loop 4
-        invariant
-            iter_mut_inv(it.snapshot@.remaining(), it.history@, it.iter.remaining(), it.index@ as int, k, n, m0.measurement@),
-            forall|j: int| 0 <= j < it.index@ ==> mut_ref_future(#[trigger] it.snapshot@.remaining()[j]) == m0.measurement@[j],
-            forall|s: String| #[trigger] used_compumethods@.contains(s) <==> cm_used_upto(&m0, 2, s@) || site_me(&m0, it.index@ as int, s@),
-//@ loop-end 4
-        proof {
-            assert forall|s: String| #[trigger] used_compumethods@.contains(s) <==> cm_used_upto(&m0, 2, s@) || site_me(&m0, k + 1, s@) by {
-                if s@ == m0.measurement@[k].conversion@ { assert(m0.measurement@[k].conversion@ == s@); }
-            }
-            k = k + 1;
-        }
-//@ after-loop 4
-    proof { assert(module.measurement@ =~= m0.measurement@); assert(same_list(module.measurement, m0.measurement)); }
-//@ before-loop 5
-    proof { k = 0; n = module.typedef_axis@.len() as int; }
-//@ loop 5
-        invariant
-            iter_mut_inv(it.snapshot@.remaining(), it.history@, it.iter.remaining(), it.index@ as int, k, n, m0.typedef_axis@),
-            forall|j: int| 0 <= j < it.index@ ==> mut_ref_future(#[trigger] it.snapshot@.remaining()[j]) == m0.typedef_axis@[j],
-            forall|s: String| #[trigger] used_compumethods@.contains(s) <==> cm_used_upto(&m0, 3, s@) || site_ta(&m0, it.index@ as int, s@),
-//@ loop-end 5
-        proof {
-            assert forall|s: String| #[trigger] used_compumethods@.contains(s) <==> cm_used_upto(&m0, 3, s@) || site_ta(&m0, k + 1, s@) by {
-                if s@ == m0.typedef_axis@[k].conversion@ { assert(m0.typedef_axis@[k].conversion@ == s@); }
-            }
-            k = k + 1;
-        }
-//@ after-loop 5
-    proof { assert(module.typedef_axis@ =~= m0.typedef_axis@); assert(same_list(module.typedef_axis, m0.typedef_axis)); }
-//@ before-loop 6
-    proof { k = 0; n = module.typedef_characteristic@.len() as int; }
-//@ loop 6
-        invariant
-            iter_mut_inv(it.snapshot@.remaining(), it.history@, it.iter.remaining(), it.index@ as int, k, n, m0.typedef_characteristic@),
-            forall|j: int| 0 <= j < it.index@ ==> mut_ref_future(#[trigger] it.snapshot@.remaining()[j]) == m0.typedef_characteristic@[j],
-            forall|s: String| #[trigger] used_compumethods@.contains(s) <==> cm_used_upto(&m0, 4, s@) || site_tc(&m0, it.index@ as int, s@),
-//@ loop-end 6
-        proof {
-            assert forall|s: String| #[trigger] used_compumethods@.contains(s) <==> cm_used_upto(&m0, 4, s@) || site_tc(&m0, k + 1, s@) by {
-                let c = m0.typedef_characteristic@[k];
-                if tc_use(c, s@) { assert(tc_use(m0.typedef_characteristic@[k], s@)); }
-            }
-            k = k + 1;
-        }
-//@ after-loop 6
-    proof { assert(module.typedef_characteristic@ =~= m0.typedef_characteristic@); assert(same_list(module.typedef_characteristic, m0.typedef_characteristic)); }
-//@ before-loop 7
-    proof { k = 0; n = module.typedef_measurement@.len() as int; }
-//@ loop 7
-        invariant
-            iter_mut_inv(it.snapshot@.remaining(), it.history@, it.iter.remaining(), it.index@ as int, k, n, m0.typedef_measurement@),
-            forall|j: int| 0 <= j < it.index@ ==> mut_ref_future(#[trigger] it.snapshot@.remaining()[j]) == m0.typedef_measurement@[j],
-            forall|s: String| #[trigger] used_compumethods@.contains(s) <==> cm_used_upto(&m0, 5, s@) || site_tm(&m0, it.index@ as int, s@),
-//@ loop-end 7
-        proof {
-            assert forall|s: String| #[trigger] used_compumethods@.contains(s) <==> cm_used_upto(&m0, 5, s@) || site_tm(&m0, k + 1, s@) by {
-                if s@ == m0.typedef_measurement@[k].conversion@ { assert(m0.typedef_measurement@[k].conversion@ == s@); }
-            }
-            k = k + 1;
-        }
-//@ after-loop 7
-    proof { assert(module.typedef_measurement@ =~= m0.typedef_measurement@); assert(same_list(module.typedef_measurement, m0.typedef_measurement)); }
-//@ before-loop 8
-    proof { k = 0; n = module.compu_method@.len() as int; }
-//@ loop 8
-        invariant
-            iter_mut_inv(it.snapshot@.remaining(), it.history@, it.iter.remaining(), it.index@ as int, k, n, m0.compu_method@),
-            forall|j: int| 0 <= j < it.index@ ==> mut_ref_future(#[trigger] it.snapshot@.remaining()[j]) == m0.compu_method@[j],
-            // C10: STATUS_STRING_REF names a conversion table, not a COMPU_METHOD: this loop must not add anything
-            forall|s: String| #[trigger] used_compumethods@.contains(s) <==> cm_used_upto(&m0, 6, s@),
-//@ loop-end 8
-        proof { k = k + 1; }
-//@ before 1 module
-    proof {
-        assert forall|s: String| #[trigger] used_compumethods@.contains(s) <==> cm_used(&m0, s@) by {}
-        assert(module.compu_method@ == m0.compu_method@);
-    }
-    let ghost p = |c: CompuMethod| cm_used(&m0, c.name@);
-//@ after 1 .retain(
-    proof {
-        assert(module.compu_method@ == m0.compu_method@.filter(p));
-    }
-//@end
-//@extract a2lfile/src/cleanup/compu_methods.rs fn remove_unused_sub_elements
-//@ itername 1 it
-//@ itername 2 it
-//@ rewrite R14 1 ".compu_tab\n        .retain(|item| used_compu_tabs.contains(&item.name))" => ".compu_tab\n        .retain(|item: &mut CompuTab| -> (b: bool) ensures *final(item) == *old(item), b == used_compu_tabs@.contains(old(item).name) { used_compu_tabs.contains(&item.name) })"
-//@ rewrite R14 1 ".compu_vtab\n        .retain(|item| used_compu_tabs.contains(&item.name))" => ".compu_vtab\n        .retain(|item: &mut CompuVtab| -> (b: bool) ensures *final(item) == *old(item), b == used_compu_tabs@.contains(old(item).name) { used_compu_tabs.contains(&item.name) })"
-//@ rewrite R14 1 ".compu_vtab_range\n        .retain(|item| used_compu_tabs.contains(&item.name))" => ".compu_vtab_range\n        .retain(|item: &mut CompuVtabRange| -> (b: bool) ensures *final(item) == *old(item), b == used_compu_tabs@.contains(old(item).name) { used_compu_tabs.contains(&item.name) })"
-//@ rewrite R14 1 "|item| used_units.contains(&item.name)" => "|item: &mut Unit| -> (b: bool) ensures *final(item) == *old(item), b == used_units@.contains(old(item).name) { used_units.contains(&item.name) }"
-//@ spec
-    requires
-        old(module).compu_tab.wf(), old(module).compu_vtab.wf(), old(module).compu_vtab_range.wf(), old(module).unit.wf(),
-    ensures
-        // conversion tables: kept iff target of a COMPU_TAB_REF / STATUS_STRING_REF of a (remaining) COMPU_METHOD
-        final(module).compu_tab@ == old(module).compu_tab@.filter(|t: CompuTab| tab_used(old(module), t.name@)),
-        final(module).compu_vtab@ == old(module).compu_vtab@.filter(|t: CompuVtab| tab_used(old(module), t.name@)),
-        final(module).compu_vtab_range@ == old(module).compu_vtab_range@.filter(|t: CompuVtabRange| tab_used(old(module), t.name@)),
-        final(module).compu_tab.wf(), final(module).compu_vtab.wf(), final(module).compu_vtab_range.wf(),
-        // UNITs: the result is a sub-list (order and elements preserved) and a UNIT is kept iff it is the target of
-        // a REF_UNIT of a COMPU_METHOD or of a REMAINING UNIT
-        exists|p: spec_fn(Unit) -> bool| final(module).unit@ == old(module).unit@.filter(p),
-        final(module).unit.wf(),
-        forall|n: Seq<char>| #[trigger] final(module).unit.has(n) <==> old(module).unit.has(n) && unit_used(final(module), n),
-        final(module).compu_method == old(module).compu_method,
-        cm_objects_same(final(module), old(module)),
-        cm_frame_untouched(final(module), old(module)),
-//@ body-start
-    let ghost m0 = *module;
-//@ loop 1
-        invariant
-            *module == m0,
-            it.snapshot@.remaining() == m0.compu_method@.map_values(|x: CompuMethod| &x),
-            forall|s: String| #[trigger] used_compu_tabs@.contains(s) <==> tab_used_pre(&m0, it.index@ as int, s@),
-            forall|s: String| #[trigger] used_units@.contains(s) <==> unit_used_cm_pre(&m0, it.index@ as int, s@),
-//@ loop-end 1
-        proof {
-            let k = it.index@ as int;
-            assert(*compu_method == m0.compu_method@[k]);
-            assert forall|s: String| #[trigger] used_compu_tabs@.contains(s) <==> tab_used_pre(&m0, k + 1, s@) by {
-                if cm_tab_use(m0.compu_method@[k], s@) { assert(cm_tab_use(m0.compu_method@[k], s@)); }
-            }
-            assert forall|s: String| #[trigger] used_units@.contains(s) <==> unit_used_cm_pre(&m0, k + 1, s@) by {
-                if m0.compu_method@[k].ref_unit is Some && m0.compu_method@[k].ref_unit->0.unit@ == s@ { assert(m0.compu_method@[k].ref_unit->0.unit@ == s@); }
-            }
-        }
-//@ after-loop 1
-    let ghost pt = |t: CompuTab| tab_used(&m0, t.name@);
-    let ghost pv = |t: CompuVtab| tab_used(&m0, t.name@);
-    let ghost pr = |t: CompuVtabRange| tab_used(&m0, t.name@);
-    proof {
-        assert forall|s: String| #[trigger] used_compu_tabs@.contains(s) <==> tab_used(&m0, s@) by {}
-    }
-//@ after 1 .retain(
-    proof { assert(module.compu_tab@ == m0.compu_tab@.filter(pt)); }
-//@ after 2 .retain(
-    proof { assert(module.compu_vtab@ == m0.compu_vtab@.filter(pv)); }
-//@ after 3 .retain(
-    proof { assert(module.compu_vtab_range@ == m0.compu_vtab_range@.filter(pr)); }
-//@ before-loop 2
-    let ghost m2 = *module;
-    proof {
-        assert forall|s: String| #[trigger] used_units@.contains(s) <==> unit_used_cm(&m0, s@) by {}
-    }
-//@ loop 2
-        invariant
-            *module == m2,
-            it.snapshot@.remaining() == m2.unit@.map_values(|x: Unit| &x),
-            forall|s: String| #[trigger] used_units@.contains(s) <==> unit_used_cm(&m0, s@) || unit_used_units(m2.unit@, it.index@ as int, s@),
-//@ loop-end 2
-        proof {
-            let k = it.index@ as int;
-            assert(*unit == m2.unit@[k]);
-            assert forall|s: String| #[trigger] used_units@.contains(s) <==> unit_used_cm(&m0, s@) || unit_used_units(m2.unit@, k + 1, s@) by {
-                if m2.unit@[k].ref_unit is Some && m2.unit@[k].ref_unit->0.unit@ == s@ { assert(m2.unit@[k].ref_unit->0.unit@ == s@); }
-            }
-        }
-//@ after-loop 2
-    let ghost q = |u: Unit| unit_used_cm(&m0, u.name@) || unit_used_units(m0.unit@, m0.unit@.len() as int, u.name@);
-//@ after 1 module.unit.retain(
-    proof {
-        assert(module.unit@ == m0.unit@.filter(q));
-    }
+"""
 
-//@end
-//@extract a2lfile/src/cleanup/compu_methods.rs fn remove_invalid_sub_element_refs
-//@ itername 1 it
-//@ rewrite R11 1 "module\n        .compu_tab\n        .keys()\n        .chain(module.compu_vtab.keys())\n        .chain(module.compu_vtab_range.keys())\n        .cloned()\n        .collect::<HashSet<String>>()" => "existing_compu_tab_names(module)"
-//@ spec
-    requires
-        old(module).compu_method.wf(), old(module).unit.wf(),
-        old(module).compu_tab.wf(), old(module).compu_vtab.wf(), old(module).compu_vtab_range.wf(),
-    ensures
-        final(module).compu_method@.len() == old(module).compu_method@.len(),
-        forall|i: int| 0 <= i < old(module).compu_method@.len() ==> cm_refs_fixed(old(module), #[trigger] final(module).compu_method@[i], old(module).compu_method@[i]),
-        final(module).compu_method.wf(),
-        final(module).compu_tab == old(module).compu_tab, final(module).compu_vtab == old(module).compu_vtab,
-        final(module).compu_vtab_range == old(module).compu_vtab_range, final(module).unit == old(module).unit,
-        cm_objects_same(final(module), old(module)),
-        cm_frame_untouched(final(module), old(module)),
-//@ body-start
-    let ghost m0 = *module;
-    let ghost mut k: int = 0;
-    let ghost n: int = module.compu_method@.len() as int;
-//@ loop 1
-        invariant
-            m0.unit.wf(), module.unit == m0.unit,
-            forall|s: String| #[trigger] existing_compu_tabs@.contains(s) <==> tab_exists(&m0, s@),
-            iter_mut_inv(it.snapshot@.remaining(), it.history@, it.iter.remaining(), it.index@ as int, k, n, m0.compu_method@),
-            forall|j: int| 0 <= j < it.index@ ==> cm_refs_fixed(&m0, mut_ref_future(#[trigger] it.snapshot@.remaining()[j]), m0.compu_method@[j]),
-//@ loop-end 1
-        proof { k = k + 1; }
-//@end
-
+TAIL = '''
 }
 
 } // verus!
 
 fn main() {}
+'''
+open("/verif/contracts/U-CLN-CM%s.vrs" % ("-FIXED" if FIXED else ""), "w").write(HEAD + step5() + step1() + step2() + step3() + step4() + TAIL)
